@@ -4,6 +4,7 @@
 #include <setjmp.h>
 #include <stdio.h>
 #include <string.h>
+#include <unistd.h>
 
 #include <algorithm>
 
@@ -166,7 +167,7 @@ static void FinishCmd(int idx) {
         if (vfs::disk->Write(o, "GARBAGE from failed " + s.id() + "\n")) rc.wrote = true;
     }
     rc.status = ft.by_signal ? 130 : ft.exit_code;
-    rc.output = "error: " + s.id() + " failed\n";
+    rc.output = s.print + "error: " + s.id() + " failed\n";
     Record(Event::kFinish, idx, rc.status);
     return;
   }
@@ -259,6 +260,11 @@ static void Complete(SubprocessSet* set, size_t pos) {
   Subprocess* s = set->running_[pos];
   FinishCmd(s->pid_);
   const RunCmd& rc = g_cur.res->cmds[s->pid_];
+  if (s->use_console_ && !rc.output.empty()) {
+    // a console command owns the terminal: what it prints goes there directly, not through ninja
+    fflush(stdout);
+    (void)!write(1, rc.output.data(), rc.output.size());
+  }
   // The real Finish() maps signal deaths by SIGINT/SIGTERM/SIGHUP to ExitInterrupted.
   s->exit_status_ = (ExitStatus)rc.status;
   if (!s->use_console_) s->buf_ = rc.output;
